@@ -44,6 +44,15 @@ def c14_predicate(c, o, j):
     # every run of the portfolio construction records exactly one target-allocation row, at its instant
     if o['error'] is None and [t for t, _ in o['allocs']] != o['pcm_times']:
         F.append('target-allocation rows at %s..., portfolio construction was due at %s...' % ([t for t, _ in o['allocs']][:4], o['pcm_times'][:4]))
+    # "the weights of the rebalance" are the full target vector (C09): every universe member at that instant has a figure in
+    # the row (0.0 where the alpha model is silent), so that the table carries a weight - not a blank - for it
+    u = cfg['universe']
+    for t, row in o['allocs']:
+        members = list(u[1]) if u[0] == 'static' else [a for a, e in u[1] if e is not None and e <= t]
+        missing = sorted(set(members) - set(k for k, _ in row))
+        if missing:
+            F.append('the allocation row of the rebalance at %s has no weight for the universe members %s (row: %s)' % (t, missing, row))
+            break
     if o['fills']:
         if not o['pcm_times'] or o['fills'][0][0] < o['pcm_times'][0]:
             F.append('a fill at %s precedes the first rebalance %s' % (o['fills'][0][0], o['pcm_times'][:1]))
